@@ -697,7 +697,17 @@ fn run_case(line: &str) -> Option<String> {
             let d = run_host(&mut DirectHost::new(&c, true), &acts, true)?;
             let k = run_host(&mut CoreHost::new(prog.clone(), true), &core_acts, true)?;
             let mut out = format!("D: {d} ## K: {k}");
-            if !acts.iter().any(|a| matches!(a, Action::Drop(_))) {
+            let no_drop = !acts.iter().any(|a| matches!(a, Action::Drop(_)));
+            // the legacy capability API as a host: the same block spawned by update through CapabilityContext
+            // (only for blocks it can express, and without drops: the legacy futures are not woken by a dropped request)
+            if let (Cmd::Task(is), true) = (&c, no_drop) {
+                if legacy_expressible(is) {
+                    let lprog: Prog = vec![(1, Cmd::Done, vec![is.clone()])];
+                    let l = run_host(&mut CoreHost::new(lprog, true), &core_acts, true)?;
+                    out += &format!(" ## L: {l}");
+                }
+            }
+            if no_drop {
                 let b = run_host(
                     &mut BridgeHost::new(Box::new(Bin(Bridge::new(Core::new()))), prog.clone(), true),
                     &core_acts,
@@ -834,7 +844,19 @@ fn gen(seed: u64, n: usize, profile: &str) {
             "hosts" => {
                 g.emit_tags = vec![10, 11, 12];
                 g.allow_abortable = g.r.chance(1, 3);
-                let c = g.cmd(4, 6, 3);
+                let c = if g.r.chance(1, 3) {
+                    // a bare task that the legacy API can express too (fifth host)
+                    g.allow_abortable = false;
+                    g.next_handle = 0;
+                    loop {
+                        let is = g.instrs(7, 0);
+                        if legacy_expressible(&is) {
+                            break Cmd::Task(is);
+                        }
+                    }
+                } else {
+                    g.cmd(4, 6, 3)
+                };
                 let mut h = g.history(9, false, &[]);
                 if g.r.chance(1, 2) {
                     // without drops the bridges take part as well
